@@ -114,3 +114,33 @@ class RWMRegsDecode(FunctionContract):
 
 
 CODEC_CONTRACTS = (UnpackBitstring(), PackBitstring(), WMRegsDecode(), RWMRegsDecode())
+
+
+from spec import checks as CK
+
+
+class ComputeCRC(FunctionContract):
+    """utilities.computeCRC(data) == byte-swapped S-CRC(data) (so that '>H' packing sends the low byte first)"""
+    qual = UT + 'computeCRC'
+    props = ('C03', 'C07')
+
+    def make(self, E):
+        return [E.bytes('data')], {}
+
+    def spec(self, E, data):
+        c = CK.crc16(E, data)
+        return (c % 256) * 256 + c // 256
+
+    loops = {0: LoopAnn('bytes', lambda v, j: L.And(CK.crc16(v.E, v.data) >= 0,       # (introduces the fold axioms)
+                                                   v.crc == v.E.fold_state('crc16', v.data, j, unfold=True), 0 <= v.crc, v.crc < 65536))}
+
+
+class ComputeLRC(FunctionContract):
+    qual = UT + 'computeLRC'
+    props = ('C03', 'C07')
+
+    def make(self, E):
+        return [E.bytes('data')], {}
+
+    def spec(self, E, data):
+        return CK.lrc(E, data)
